@@ -21,6 +21,7 @@ import (
 	"os"
 	"os/exec"
 	"reflect"
+	"strconv"
 	"strings"
 	"sync"
 	"unicode/utf8"
@@ -164,6 +165,34 @@ func genQ04(w *bufio.Writer, rng *prng, n int, depth int) {
 			for j := 0; j < k; j++ {
 				c.args = append(c.args, g.val(depth))
 			}
+		} else if kind == 3 {
+			// floats under every float verb with dense flags ('#' keeps trailing zeros: the digits of
+			// the strconv rendering are post-processed), widths and precisions
+			c.entry = "sprintf"
+			var sb strings.Builder
+			k := 1 + rng.intn(2)
+			for j := 0; j < k; j++ {
+				sb.WriteString(rng.pick([]string{"", "a=", " ", "nº"}))
+				sb.WriteByte('%')
+				for _, ch := range "#+- 0" {
+					if rng.coin(1, 3) && !(ch == '0' && strings.Contains(sb.String()[strings.LastIndex(sb.String(), "%"):], "-")) {
+						sb.WriteRune(ch)
+					}
+				}
+				if rng.coin(1, 3) {
+					fmt.Fprintf(&sb, "%d", rng.intn(16))
+				}
+				if rng.coin(1, 3) {
+					fmt.Fprintf(&sb, ".%d", rng.intn(9))
+				}
+				sb.WriteByte("vbgGxXfFeE"[rng.intn(10)])
+				c.args = append(c.args, &Val{K: "f", GoT: rng.pick([]string{"float64", "float64", "float32", "MyFloat"}), F: g.float()})
+			}
+			c.format = sb.String()
+			if !fmtCompatFormat(c.format) {
+				i--
+				continue
+			}
 		} else {
 			c.entry = "sprintf"
 			c.args, c.format = g.formatFor(depth, rng.intn(4))
@@ -267,6 +296,10 @@ func variant(v *Val, k int, public bool) *Val {
 			c.Script = append(c.Script, variantAct(a, k, pub || (a.K == "ret" && userKinds[v.UK].ifaces[1])))
 		}
 		return &c
+	case "st":
+		if v.GoT == "RegSt" {
+			return v // public when registered; kept equal in both instantiations either way
+		}
 	case "mp":
 		for i := range v.Keys {
 			c.Keys = append(c.Keys, variant(v.Keys[i], k, true)) // keys kept: relative order must not change
@@ -591,6 +624,64 @@ func c05struct(g *vgen) (*Val, func() interface{}) {
 	}
 }
 
+// fmt counterpart of an unregistered RegSt: both leaves blank
+type BlankSt struct{ N, V Blank }
+
+// a map whose keys are of a declared-safe named string type, or a struct of a type registered as a
+// whole (by value, or behind a top-level pointer: the registry is consulted for the element type)
+func c05special(g *vgen, depth int, reg bool) (*Val, func() interface{}) {
+	r := g.rng
+	if r.coin(1, 2) {
+		kt := "SvStr"
+		if reg && r.coin(1, 2) {
+			kt = "RegStr"
+		}
+		n := 1 + r.intn(3)
+		m := &Val{K: "mp", GoT: "map[" + kt + "]interface{}"}
+		var fs []func() interface{}
+		for i := 0; i < n; i++ {
+			var k string
+			e, f, _ := c05val2(g, depth, reg, &k)
+			m.Keys = append(m.Keys, &Val{K: "s", GoT: kt, S: g.str() + strconv.Itoa(i)})
+			m.Elems = append(m.Elems, e)
+			fs = append(fs, f)
+		}
+		return m, func() interface{} {
+			if kt == "SvStr" {
+				out := map[SvStr]interface{}{}
+				for i, k := range m.Keys {
+					out[SvStr(k.S)] = fs[i]()
+				}
+				return out
+			}
+			out := map[RegStr]interface{}{}
+			for i, k := range m.Keys {
+				out[RegStr(k.S)] = fs[i]()
+			}
+			return out
+		}
+	}
+	sN, iV := g.str(), intVals[r.intn(len(intVals))]
+	st := &Val{K: "st", GoT: "RegSt", Elems: []*Val{{K: "s", GoT: "string", S: sN}, {K: "i", GoT: "int", I: iV}}}
+	ptr := r.coin(2, 3)
+	var v *Val = st
+	if ptr {
+		v = &Val{K: "ptr", GoT: "*RegSt", Elems: []*Val{st}}
+	}
+	return v, func() interface{} {
+		if reg {
+			if ptr {
+				return &RegSt{N: sN, V: int(iV)}
+			}
+			return RegSt{N: sN, V: int(iV)}
+		}
+		if ptr {
+			return &BlankSt{Blank{sN}, Blank{int(iV)}}
+		}
+		return BlankSt{Blank{sN}, Blank{int(iV)}}
+	}
+}
+
 func genQ05(w *bufio.Writer, rng *prng, n int, depth int) {
 	q := &qw{w}
 	for i := 0; i < n; i++ {
@@ -603,6 +694,13 @@ func genQ05(w *bufio.Writer, rng *prng, n int, depth int) {
 			lits := []string{"", "a", " ", "x=", "\n", ":", "é", "%%", "‹", "›"}
 			sb.WriteString(rng.pick(lits))
 			var kinds string
+			if rng.coin(1, 8) {
+				v, f := c05special(g, depth-1, c.reg)
+				c.args = append(c.args, v)
+				fargs = append(fargs, f)
+				sb.WriteString(rng.pick([]string{"%v", "%+v", "%v", "%6v"}))
+				continue
+			}
 			if rng.coin(1, 8) {
 				// struct with unexported unsafe strings after SafeValue fields: plain directives only
 				v, f := c05struct(g)
@@ -1331,11 +1429,15 @@ func genQ11(w *bufio.Writer, rng *prng, n int, depth int) {
 	dbl := anyStringer{func() string { panic(anyStringer{func() string { panic("inner") }}) }}
 	histories := []func(){
 		func() { _ = redact.Sprint(sfFunc(func(p redact.SafePrinter) { p.Print(dbl) })) },
-		func() { _ = redact.Sprintf("%v|%d", sfFunc(func(p redact.SafePrinter) { p.Printf("%s %d", dbl, 3) }), 4) },
+		func() {
+			_ = redact.Sprintf("%v|%d", sfFunc(func(p redact.SafePrinter) { p.Printf("%s %d", dbl, 3) }), 4)
+		},
 		func() {
 			_ = redact.Sprint([]interface{}{sfFunc(func(p redact.SafePrinter) { p.SafeString("a"); p.Print(1, dbl) })})
 		},
-		func() { _ = redact.Sprintfn(func(p redact.SafePrinter) { p.Print(sfFunc(func(p2 redact.SafePrinter) { p2.Print(dbl) })) }) },
+		func() {
+			_ = redact.Sprintfn(func(p redact.SafePrinter) { p.Print(sfFunc(func(p2 redact.SafePrinter) { p2.Print(dbl) })) })
+		},
 	}
 	for hi, h := range histories {
 		for round := 0; round < 3; round++ {
@@ -1371,6 +1473,37 @@ func genQ11(w *bufio.Writer, rng *prng, n int, depth int) {
 						fmt.Fprintln(w, runPCase(c))
 					}
 				}
+			}
+		}
+	}
+	// the character verbs on every rune class (surrogates, negative, above MaxRune) and integer type
+	for _, r := range runes {
+		for _, f := range []string{"%c", "[%3c]", "[%-3c]", "%q", "%#q", "%+q", "%U", "%#U", "%#.6U", "%v %c"} {
+			if !rng.coin(1, 2) {
+				continue
+			}
+			vals := []*Val{{K: "i", GoT: "int", I: int64(r)}, {K: "i", GoT: "int32", I: int64(r)}, {K: "i", GoT: "int64", I: int64(r) << 8},
+				{K: "u", GoT: "uint64", U: uint64(int64(r))}, {K: "i", GoT: "SafeInt", I: int64(r)}}
+			if r >= 0 && r <= 0xffff {
+				vals = append(vals, &Val{K: "u", GoT: "uint16", U: uint64(r)})
+			}
+			v := vals[rng.intn(len(vals))]
+			c := &pcase{entry: "sprintf", format: f, args: []*Val{v}}
+			if strings.Count(f, "%") == 2 {
+				c.args = append(c.args, v)
+			}
+			if rng.coin(1, 4) {
+				c.args = []*Val{{K: "sl", GoT: "[]interface{}", Elems: c.args}}
+				c.format = strings.SplitN(f, " ", 2)[0]
+			}
+			args := prepCase(c)
+			var out string
+			p, pv := try(func() { out = string(redact.Sprintf(c.format, args...)) })
+			info := fmt.Sprintf("format %q operand %s panic value %v", c.format, dslAll(c.args), pv)
+			q.truth("C11", "a character verb panicked", !p, info)
+			if !p {
+				q.eq("C04", "StripMarkers(redact output) = fmt output", fn("strip", lit(out)), fn("escm", lit(fmt.Sprintf(c.format, args...))), info)
+				fmt.Fprintln(w, runPCase(c))
 			}
 		}
 	}
@@ -1462,7 +1595,9 @@ func c12probes() []probeFn {
 		{"Sprint state", func() string { return string(redact.Sprint(wfmt{}, 1)) }},
 		{"Sprintf %d str", func() string { return string(redact.Sprintf("%d %s", 7, "x")) }},
 		{"Sprintf unsafe str", func() string { return string(redact.Sprintf("login by %s from %v", "user", 123)) }},
-		{"Sprintf safe", func() string { return string(redact.Sprintf("%v %v", redact.Safe("pub"), redact.Unsafe(redact.SafeString("s")))) }},
+		{"Sprintf safe", func() string {
+			return string(redact.Sprintf("%v %v", redact.Safe("pub"), redact.Unsafe(redact.SafeString("s"))))
+		}},
 		{"Sprintf [2]", func() string { return string(redact.Sprintf("%[2]d %[1]d", 1, 2)) }},
 		{"Sprintf bad index", func() string { return string(redact.Sprintf("%[5]d %d", 1)) }},
 		{"Sprintf panic", func() string {
@@ -1480,7 +1615,9 @@ func c12probes() []probeFn {
 		{"Sprintfn", func() string {
 			return string(redact.Sprintfn(func(p redact.SafePrinter) { p.Printf("%d", 1); p.UnsafeString("u"); p.Print(wfmt{}) }))
 		}},
-		{"nested", func() string { return string(redact.Sprint(sfNested{"x"}, redact.Safe(sfNested{2}), redact.Unsafe(sfNested{3}))) }},
+		{"nested", func() string {
+			return string(redact.Sprint(sfNested{"x"}, redact.Safe(sfNested{2}), redact.Unsafe(sfNested{3})))
+		}},
 		{"builder", func() string {
 			var sb redact.StringBuilder
 			sb.Printf("%5.2f|%v", 3.14159, wfmt{})
@@ -1952,7 +2089,7 @@ func (e errFormatter) Format(s fmt.State, verb rune) { _, _ = s.Write([]byte("FO
 
 type errSafeFormatter struct{ s string }
 
-func (e errSafeFormatter) Error() string                               { return e.s }
+func (e errSafeFormatter) Error() string                              { return e.s }
 func (e errSafeFormatter) SafeFormat(p redact.SafePrinter, verb rune) { p.SafeString("OWN-SAFEFORMAT") }
 
 type errSafeMessager struct{ s string }
